@@ -310,6 +310,10 @@ func c14Atoms() []c14Atom {
 		add(st("style", "color: blue; display: none"))
 		add(st("style", "display: inline-block"))
 		add(st("style", "background:url(data:image/png;base64,AAAA); color: blue"))
+		// a semicolon inside a single-quoted / double-quoted CSS string is not the end of a declaration
+		add(st("style", "content: ';'; color: blue"))
+		add(st("style", "font-family: 'a;b', serif; margin: 0"))
+		add(st("style", `quotes: "«;" "»"; color: blue`))
 		add(st("data-j", ""))
 		// values that already hold the text of an entity: written with one more level of escaping, read back as they are
 		add(st("data-e", `show &lt; as text, R&amp;D, &#34;q&#34;`))
